@@ -56,7 +56,9 @@ def apply_unfolders(sid: str, unfolders: List[Callable]) -> List[Sid]:
         done = func(result)
         result = done
 
-    return sorted(set(result))
+    # Sids order by their string only: the uri is added to the key, so that Sids of different types
+    # with the same string always come out in the same order (not in the order of the set, which depends on the hash seed).
+    return sorted(set(result), key=lambda s: (str(s), getattr(s, "uri", "")))
 
 
 @cache
